@@ -152,9 +152,14 @@ def _e4(prop, quick_cases, thorough_cases, minnt):
 
 CHECKS['C02'] = dict(stages=[_e4('C02', 4000, 100000, 200)], assumptions=_e4_assume)
 
-for _p in ('C03', 'C04', 'C06', 'C08', 'C09'):
+for _p in ('C03', 'C04', 'C06', 'C08', 'C09', 'C20'):
     CHECKS[_p]['stages'].append(_e4(_p, 1600, 50000, 50))
-    CHECKS[_p]['assumptions'] = _e4_assume
+    CHECKS[_p]['assumptions'] = CHECKS[_p].get('assumptions', []) + [a for a in _e4_assume if a not in CHECKS[_p].get('assumptions', [])]
+# C04: the window in which an unaccounted message escapes the reduction is widest across ranks (slow collectives, messages in
+# MPI flight); the seeded change C04-gvt-ignores-extracted-anti-messages is found by ~3 of 4 campaigns of 1500 cases, so this
+# stage gets twice the budget of the others
+CHECKS['C04']['stages'][-1]['quick'].update(cases=3600, time_budget=170)
+CHECKS['C04']['stages'][0]['quick'].update(cases=3000, time_budget=80)
 
 
 # C11: memory safety / UB rides on every engine (all harness builds are ASan+UBSan with asserts on).  Its own check runs
